@@ -44,7 +44,8 @@ def load_sidecars(prop):
 
 def base_name(obname):
     """Obligation name without the path suffix."""
-    return re.sub(r'/path\d+$', '', re.sub(r'~\d+$', '', obname))
+    n = re.sub(r'/path\d+$', '', re.sub(r'~\d+$', '', obname))
+    return re.sub(r'@\d+', '', n)       # line numbers shift with harmless edits above the function
 
 
 def identity_check(specs):
